@@ -35,7 +35,7 @@ META = {
                     'by a one-letter marker token; no catcode op inside an argument group; \\gdef writes the bottom frame and '
                     'may be shadowed by a live local definition (lookup yields the innermost live definition)',
                     'no fault space exists for this property (sequential refinement only)'],
-    'probe_names': ['dfs_exhaustive', 'locals_sweep', 'unknown_environment_in_math', 'package_loaded_inside_group', 'user_environment', 'fresh_name_global_in_nesting', 'catalogue_scope', 'catalogue_dimen_spelling', 'catalogue_raise', 'declaration_frame', 'change_after_declaration_restored', 'char_let_shadowed', 'local_def_restored', 'global_def_survives', 'let_restored', 'catcode_restored', 'if_survives', 'counter_survives',
+    'probe_names': ['dfs_exhaustive', 'catcode_char_directly_after_group_end', 'locals_sweep', 'unknown_environment_in_math', 'package_loaded_inside_group', 'user_environment', 'fresh_name_global_in_nesting', 'catalogue_scope', 'catalogue_dimen_spelling', 'catalogue_raise', 'declaration_frame', 'change_after_declaration_restored', 'char_let_shadowed', 'local_def_restored', 'global_def_survives', 'let_restored', 'catcode_restored', 'if_survives', 'counter_survives',
                     'nested_depth_ge3', 'env_inside_group', 'group_inside_env', 'math_group', 'cell_scope', 'argument_group',
                     'gdef_shadowed', 'catcode_cow_two_frames'],
     'shrink_budget': 400,
@@ -66,7 +66,7 @@ def generate(seed, tier):
                'DEF_GLOBAL': r.choice([0, 1, 2]), 'LET': r.choice([0, 1, 2]), 'CATCODE': r.choice([0, 1, 2]),
                'SETIF': r.choice([0, 1]), 'STEP': r.choice([0, 1]), 'PROBE': 3, 'CELLSEP': r.choice([0, 1]),
                'LETCHAR': r.choice([0, 1, 2]), 'DECL': r.choice([0, 1, 2]), 'VERB': r.choice([0, 1]), 'ROWSEP': r.choice([0, 1]),
-               'SETCOUNTER': r.choice([0, 1]), 'LOADPKG': r.choice([0, 0, 1])}
+               'SETCOUNTER': r.choice([0, 1]), 'LOADPKG': r.choice([0, 0, 1]), 'TCAT': r.choice([0, 1, 2]), 'TIGHTCLOSE': r.choice([0, 1])}
     kinds = [k for k, w in weights.items() for _ in range(w)]
     while len(ops) < n:
         o = r.choice(kinds)
@@ -85,6 +85,16 @@ def generate(seed, tier):
             depth -= 1
         elif o in ('CELLSEP', 'ROWSEP', 'VERB'):
             ops.append({'op': o})
+        elif o == 'TCAT':
+            ops.append({'op': 'TCAT', 'code': r.choice([12, 12, 13])})
+            if r.random() < 0.4:
+                ops.append({'op': 'PROBE', 'what': 'tilde'})
+        elif o == 'TIGHTCLOSE':
+            if depth == 0:
+                continue
+            ops.append({'op': 'TIGHTCLOSE'})
+            stack.pop()
+            depth -= 1
         elif o == 'LOADPKG':
             ops.append({'op': 'LOADPKG', 'pkg': r.randrange(len(PKGS))})
             if r.random() < 0.5:
@@ -132,7 +142,7 @@ def balance(ops):
     for op in ops:
         if op['op'] == 'OPEN':
             depth += 1
-        elif op['op'] == 'CLOSE':
+        elif op['op'] in ('CLOSE', 'TIGHTCLOSE'):
             if depth == 0:
                 continue
             depth -= 1
@@ -163,6 +173,12 @@ class Model(object):
             if '@' in f['cats']:
                 return f['cats']['@']
         return 12
+
+    def cat2(self):
+        for f in reversed(self.frames):
+            if '~' in f['cats']:
+                return f['cats']['~']
+        return 13
 
     def open(self, kind):
         self.frames.append({'macros': {}, 'lets': {}, 'cats': {}, 'kind': kind})
@@ -309,6 +325,9 @@ def run_api(ops):
         elif o == 'CATCODE':
             ctx.catcode('@', op['code'])
             m.catcode(op['code'])
+        elif o == 'TCAT':
+            ctx.catcode('~', op['code'])
+            m.frames[-1]['cats']['~'] = op['code']
         elif o == 'LETCHAR':
             from plasTeX.Tokenizer import Other
             ctx.let(EscapeSequence(op['dst']), Other(op['ch']))
@@ -358,6 +377,9 @@ def run_api(ops):
         if ctx.whichCode('@') != m.cat():
             raise ApiViolation('C04|api|catcode|%s' % ('restored' if o == 'CLOSE' else o.lower()),
                                {'step': k, 'op': op, 'real': ctx.whichCode('@'), 'model': m.cat()})
+        if ctx.whichCode('~') != m.cat2():
+            raise ApiViolation('C04|api|catcode|%s' % ('restored' if o == 'CLOSE' else o.lower()),
+                               {'step': k, 'op': op, 'char': '~', 'real': ctx.whichCode('~'), 'model': m.cat2()})
         if 'zzunseen' in ctx:
             raise ApiViolation('C04|api|phantom-name', {'step': k})
         if bool(ctx['ifsw'].state) != m.ifstate:
@@ -421,6 +443,11 @@ def compile_tex(ops, global_prefix=False):
         elif what in LNAMES:
             src.append('x\\%s ' % what)
             exp.append('x' + (m.get_let(what) or m.lookup(what)))
+        elif what == 'tilde':
+            if in_arg or in_math:
+                return
+            src.append('x~y ')
+            exp.append('x~y' if m.cat2() == 12 else 'xy')        # (an active ~ is a no-break space: white space to the comparison)
         elif what == 'pkg':
             for k, (pk, mac) in enumerate(PKGS):
                 src.append('x\\ifdefined\\%s P\\else Q\\fi ' % mac)
@@ -436,7 +463,7 @@ def compile_tex(ops, global_prefix=False):
             src.append('x\\arabic{cx} ')
             exp.append('x%d' % m.counter)
         else:
-            for w in NAMES + LNAMES + ['cat', 'if', 'counter', 'fresh', 'pkg']:
+            for w in NAMES + LNAMES + ['cat', 'if', 'counter', 'fresh', 'pkg', 'tilde']:
                 probe(w)
 
     for op in ops:
@@ -529,6 +556,31 @@ def compile_tex(ops, global_prefix=False):
                 continue
             src.append('\\catcode`\\@=%d\\relax ' % op['code'])
             m.catcode(op['code'])
+        elif o == 'TCAT':
+            if in_arg or in_math:
+                continue
+            src.append('\\catcode`\\~=%d\\relax ' % op['code'])
+            m.frames[-1]['cats']['~'] = op['code']
+        elif o == 'TIGHTCLOSE':
+            # \endgroup DIRECTLY followed by the character whose category the group changed: the character is
+            # categorised when it is read as the next token, i.e. after the group has closed
+            if not stack:
+                continue
+            k = stack.pop()
+            if k == 'begingroup' and not in_arg and not in_math:
+                m.close()
+                src.append('\\endgroup~q ')
+                exp.append('~q' if m.cat2() == 12 else 'q')
+                m.info['catcode_char_directly_after_group_end'] = 1
+            else:
+                src.append(CLOSE_TEX[k])
+                m.close()
+                if k in ARG_KINDS:
+                    in_arg -= 1
+                if k in MATH_KINDS:
+                    in_math -= 1
+                if k == 'mboxm':
+                    in_math = math_saved.pop()
         elif o == 'SETIF':
             src.append('\\swtrue ' if op['value'] else '\\swfalse ')
             m.ifstate = op['value']
@@ -735,7 +787,8 @@ def execute(record):
         try:
             if tr == 'api':
                 api_ops = [dict(o, kind={'center': 'center', 'quote': 'quote', 'textbf': 'textbf', 'mbox': 'mbox'}.get(o.get('kind'), 'group'))
-                           if o['op'] == 'OPEN' else o for o in ops if o['op'] not in ('CELLSEP', 'ROWSEP', 'VERB', 'EMPTY', 'LOADPKG')]
+                           if o['op'] == 'OPEN' else (dict(o, op='CLOSE') if o['op'] == 'TIGHTCLOSE' else o)
+                           for o in ops if o['op'] not in ('CELLSEP', 'ROWSEP', 'VERB', 'EMPTY', 'LOADPKG')]
                 m, st = run_api(api_ops)
                 states.extend(st)
                 info.update(m.info)
